@@ -14,7 +14,8 @@ EXPLANATION = (
     "when no inner result arrived (the None of the race / elapsed timeout); (AWAITS) the call future suspends only "
     "in the timeout and in the race, so it resolves in the poll in which tokio reports completion or expiry; "
     "(CONFIG) builder methods carry cancel_running_future and the timeout source through. The tokio::select! "
-    "branch convention (branch k <-> future k) is a trusted macro convention.")
+    "branch convention (branch k <-> future k) is a trusted macro convention."
+    ' (NO-PANIC-ARITH) no panicking Instant/Duration operator is applied to the request timeout (a `Duration::MAX` timeout must not panic); deadlines of timeout_at/sleep_until are accepted only as now().checked_add(timeout).')
 RULE = "one obligation per mode site, per wiring clause, per error construction, per await, per builder field"
 TRUSTED = ["tokio::time::timeout / sleep / select! / spawn / oneshot", "rustc MIR construction"]
 ASSUMPTIONS = ["cancel_running_future / get_timeout are the public configuration names"]
